@@ -229,11 +229,18 @@ def _check_unary(Bitset, bu, mon, v, n, acc, full=True):
             mon.eq("slice", a[sl], model[sl], dict(case, sl=[sl.start, sl.stop, sl.step]))
     # halving helpers
     half = (n + 1) // 2
-    l, r = bu.half_bits(Bitset(v, n) if n else Bitset(0, 0))
+    arg = Bitset(v, n) if n else Bitset(0, 0)
+    l, r = bu.half_bits(arg)
+    # the bit string that was halved is the caller's: it is as it was, and halving it again gives the same halves
+    mon.same("half.argument-intact", arg, model, case)
+    l2, r2 = bu.half_bits(arg)
+    mon.eq("half.twice", (int(l2), len(l2), int(r2), len(r2)), (int(l), len(l), int(r), len(r)), case)
     mon.same("half.left", l, m_ext(model[:n - half], half), case)
     mon.same("half.right", r, model[n - half:] if half else [], case)
     check_derived(mon, l, m_ext(model[:n - half], half), case, "half.left")
-    l, r = bu.half_bits_not_padding(Bitset(v, n) if n else Bitset(0, 0))
+    arg = Bitset(v, n) if n else Bitset(0, 0)
+    l, r = bu.half_bits_not_padding(arg)
+    mon.same("halfnp.argument-intact", arg, model, case)
     mon.same("halfnp.left", l, model[:n - half], case)
     mon.same("halfnp.right", r, model[n - half:] if half else [], case)
     # no-length construction uses the minimal number of bits
